@@ -37,7 +37,8 @@ RULE = ('seeded outage schedules over 1-5 virtual minutes (harness/props/c09.py 
         'request in flight or idle; coming back one tick before / at / after a predicted retry or at a random time), background '
         'traffic every 16-128 ticks plus calls placed around every transition and predicted retry, resurrector initial in {1,2,5} s '
         'and max in {4,8,60} s (initial <= max), exponent 1.2 (shipped) / 1.5 / 2, connect delays 0-3 ticks, client close at a '
-        'random time or on a retry tick in a quarter of the cases, both same-tick timer orders; one Coq case per ResurrectorSink '
+        'random time or on a retry tick in a quarter of the cases, in another ~fifth the caller of the first call that fails closes the '
+        'client the moment it wakes up (between a fault and its delivery), both same-tick timer orders; one Coq case per ResurrectorSink '
         'instance; non-trivial = some instance went down; distinct by canonical JSON of (case, observation)')
 TRUSTED = ['simulation world harness/vworld.py (virtual clock, fake gsocket), scripted peers harness/peers.py',
            'outage endpoints and interface tracing proxies in harness/c09_world.py (factory/sink/AsyncResult proxies between the '
@@ -191,6 +192,15 @@ def gen_case(r, idx=0, stack=None):
     else:
       at = r.choice(hot) + r.choice([-1, 0, 0, 1]) if hot and r.random() < 0.6 else r.randrange(8, horizon)
     ops.append({'at': max(8, min(at, horizon - 1)), 'op': 'close'})
+  elif r.random() < 0.3:
+    # an application that closes the client the moment a call fails: every call from some tick on (often the start of
+    # an outage) is made by a caller that reacts to an error by closing - the close then lands between a fault being
+    # raised by the transport and its delivery to the pool / resurrector (notifications travel in their own greenlets)
+    downs = [e['at'] for e in ops if e['op'] == 'down']
+    t_from = r.choice(downs) if downs and r.random() < 0.7 else r.randrange(8, horizon)
+    for e in ops:
+      if e['op'] == 'call' and e['at'] >= t_from:
+        e['close_on_error'] = True
   ops.sort(key=lambda e: (e['at'], {'down': 0, 'up': 1, 'call': 2, 'close': 3}[e['op']]))
   cl = [e['at'] for e in ops if e['op'] == 'close']
   if cl:
@@ -280,6 +290,7 @@ class _Inst(object):
     self.cur_sid = 0        # the sink most recently created by this instance
     self.sid_closed = {}    # sid -> idx at which the instance closed that sink
     self.connects = []      # (idx, ticks, ok, sid): connect attempts, attributed to the sink they were made for
+    self.open_at = []       # (idx of the connect, idx of the u-open it belongs to)
     self.opens = []         # (idx of the connect, ticks, ok, sid, idx at which Open().get() returned ok or None)
     self.estab = {}         # cid -> idx
     self.conn_sid = {}      # cid -> sid
@@ -329,6 +340,7 @@ def _timeline(obs):
             break
           if f[2] == 'connect' and f[3] == it.port:
             it.opens.append((j, t, f[4] == 'True', e[4], get_ok.get((e[3], e[4]))))
+            it.open_at.append((j, idx))
             break
     elif k in ('connect', 'established', 'close', 'peer-reset', 'peer-close', 'peer-silent'):
       it = by_port.get(e[3])
@@ -560,6 +572,12 @@ def monitor(case, obs):
           sig = 'connect-after-close/sink-not-closed'
           why = 'by the retry loop of the endpoint\'s ResurrectorSink, which was never closed (sinks closed at client close: %s)' % (
               sorted(jt.port for jt in insts.values() if jt.close_idx is not None and jt.close_idx > client_close))
+        elif it is not None and any(j == idx and uo < client_close and log[uo][0] == log[client_close][0] for (j, uo) in it.open_at):
+          # the connect of an Open() that had been issued before the close, in the same instant, but whose work (a
+          # greenlet of the pool) only started after Close() returned
+          sig = 'connect-after-close/open-issued-before-close'
+          why = ('by an Open() of the endpoint\'s sink that was issued before the close in the same instant and carried out '
+                 'after it (the connection it makes is never closed)')
         else:
           sig = 'connect-after-close'
           why = 'although the endpoint\'s sink had been closed'
